@@ -435,6 +435,21 @@ func c16WriteBits(c *Ctx) {
 			// after the cache.Add succeeded (hence after the server's grant)
 			adds := CallsIn(lf, "(locking.LockCacher).Add", "(*locking.LockCache).Add")
 			after := len(adds) > 0 && adds[0].Block().Dominates(ci.Block())
+			if !after && len(adds) > 0 {
+				// the grant and the write-bit change may sit in two helpers called in sequence (expanded in place,
+				// their results passing through local cells): every feasible path to the change crosses the
+				// success edge of the cache Add
+				addCall, _ := adds[0].(*ssa.Call)
+				pass := PassEdges(lf, func(cond ssa.Value) (bool, bool) {
+					if e, trueMeansNil, ok := IsErrNilCheck(cond); ok && addCall != nil && ResultOfCall(e, addCall, 0) {
+						return trueMeansNil, true
+					}
+					return false, false
+				})
+				if g, _ := Guarded(lf.Blocks[0], ci, pass, nil); g && nonVacuous(pass) {
+					after = true
+				}
+			}
 			c.Check(isC && bv && after, "R4", "LockFile:writable-after-grant", p.InstrPos(ci), "the file becomes writable only after the lock was granted and recorded", "LockFile changes the write bit before the lock was granted, or clears it")
 		}
 	}
